@@ -3,8 +3,11 @@ C08 — filter strings compile to the RFC 4511 filter they denote.
 Statements only; proofs are references to Lemmas/Filter*.  Model: Ldap3V/Model/Filter.lean
 (src/filter.rs, nom-7 complete combinators); spec: Ldap3V/Spec/Filter.lean (RFC 4515 / 4512 / 4511).
 
-`Filter.parse : Bytes → Option Tag` is `ldap3::parse_filter`; the BER of the result is
-`encode t.toTlv` (C07).  `GLib f s`: the string `s` denotes the tree `f` in the library's language
+`Filter.parse : Bytes → Option Tag` is `ldap3::parse_filter`: the nesting guard (`nesting_within_limit`,
+at most `Filter.maxNesting` = 128 levels of parentheses — the repair of F28, a stack overflow on deeply
+nested strings) followed by the grammar; the BER of the result is `encode t.toTlv` (C07).
+`Filter.fdepth f`: the nesting depth of the syntax tree `f` (an item has 1, each `&` `|` `!` adds 1) —
+which is the parenthesis depth of every string that denotes it.  `GLib f s`: the string `s` denotes the tree `f` in the library's language
 (RFC 4515 grammar + bare item + `(&)` `(|)` + a bare number as attribute type + any octet ≥ 0x80
 in values; the keyword `dn` in any case); `GRfc`: RFC 4515 as written (+ the documented extensions), over UTF-8 text; `GRfc ⊆ GLib`.
 -/
@@ -13,6 +16,7 @@ import Ldap3V.Lemmas.FilterTlv
 import Ldap3V.Lemmas.FilterDialect
 import Ldap3V.Lemmas.GenPureFeed
 import Ldap3V.Lemmas.FilterShape
+import Ldap3V.Lemmas.FilterNesting
 namespace Ldap3V
 open Spec.Filter
 open Spec (Filter)
@@ -21,14 +25,15 @@ open Spec (Filter)
 the RFC 4511 encoding of the tree that string denotes. -/
 theorem C08_sound (s : Bytes) (t : Tag) (h : Filter.parse s = some t) :
     ∃ f, GLib f s ∧ t.toTlv = toTlv f :=
-  Filter.parse_sound ((Filter.parse_some_iff s t).mp h)
+  Filter.parse_sound ((Filter.parse_some_iff s t).mp (Filter.parse_core h))
 
 /-- Completeness for the library's language (a superset of RFC 4515):
-every string of the language is accepted and compiles to the BER filter of its tree. -/
-theorem C08_complete_lib (f : Filter) (s : Bytes) (h : GLib f s) :
+every string of the language whose tree nests at most 128 levels is accepted and compiles to the BER
+filter of its tree.  (Deeper ones are refused: `C08_nesting_limit`.) -/
+theorem C08_complete_lib (f : Filter) (s : Bytes) (h : GLib f s) (hd : Filter.fdepth f ≤ Filter.maxNesting) :
     (Filter.parse s).map Tag.toTlv = some (toTlv f) := by
-  obtain ⟨t, ht, htl⟩ := Filter.parse_complete h
-  rw [(Filter.parse_some_iff s t).mpr ht]; simp [htl]
+  obtain ⟨t, ht, htl⟩ := Filter.parse_complete_guarded h hd
+  rw [ht]; simp [htl]
 
 /-- RFC 4515 as written (the literal `"dn"` in any case, RFC 5234 §2.3), with the documented
 extensions, is contained in the library's language. -/
@@ -36,17 +41,46 @@ theorem C08_rfc_in_lib (f : Filter) (s : Bytes) (h : GRfc f s) : GLib f s := rfc
 
 /-- Every filter string of the RFC 4515 grammar, plus the documented extensions (an item without
 outer parentheses, the empty `(&)` and `(|)`), is accepted and compiles to the BER filter of its
-syntax tree. -/
-theorem C08_complete (f : Filter) (s : Bytes) (h : GRfc f s) :
+syntax tree — up to the nesting bound of 128 levels (the property's quantifier is over trees up to a
+nesting bound; what happens beyond it is `C08_nesting_limit`: an error). -/
+theorem C08_complete (f : Filter) (s : Bytes) (h : GRfc f s) (hd : Filter.fdepth f ≤ Filter.maxNesting) :
     (Filter.parse s).map Tag.toTlv = some (toTlv f) :=
-  C08_complete_lib f s (rfc_in_lib h)
+  C08_complete_lib f s (rfc_in_lib h) hd
+
+/-- The nesting limit, exactly: a string is accepted iff it nests parentheses at most 128 deep and the
+grammar accepts it; for a parenthesised string of the language that is: iff its TREE nests at most 128
+levels.  So the recursion of the descent parser (one level per level of nesting) is never deeper than
+128 + a constant, for every input. -/
+theorem C08_nesting_limit :
+    (∀ s t, Filter.parse s = some t ↔ Filter.nest 0 s ≤ Filter.maxNesting ∧ Filter.parseCore s = some t) ∧
+    (∀ f s, G .lib f s → ((Filter.parse s).isSome = true ↔ Filter.fdepth f ≤ Filter.maxNesting)) ∧
+    (∀ s, Filter.maxNesting < Filter.nest 0 s → Filter.parseO s = .reject) := by
+  refine ⟨Filter.parse_some, ?_, ?_⟩
+  · intro f s h
+    constructor
+    · intro hs
+      cases hp : Filter.parse s with
+      | none => rw [hp] at hs; cases hs
+      | some t =>
+        have hn := Filter.parse_nest hp
+        have := Filter.nest_G h 0 []
+        simp [Filter.nest] at this
+        omega
+    · intro hd
+      obtain ⟨t, ht, _⟩ := Filter.parse_complete_guarded (Or.inl h) hd
+      rw [ht]; rfl
+  · intro s h
+    rw [Filter.parseO_eq]
+    have : ¬ Filter.nest 0 s ≤ Filter.maxNesting := by omega
+    simp [this]
 
 /-- The strings of the library's language are unambiguous: a string denotes one tree. -/
 theorem C08_unambiguous (f f' : Filter) (s : Bytes) (h : GLib f s) (h' : GLib f' s) : f = f' := by
-  have a := C08_complete_lib f s h
-  have b := C08_complete_lib f' s h'
-  rw [a] at b
-  exact toTlv_injective (Option.some.inj b)
+  obtain ⟨t, ht, e⟩ := Filter.parse_complete h
+  obtain ⟨t', ht', e'⟩ := Filter.parse_complete h'
+  rw [ht] at ht'
+  cases ht'
+  exact toTlv_injective (e.symm.trans e')
 
 /-- Different trees have different BER forms … -/
 theorem C08_toTlv_injective (f g : Filter) (h : toTlv f = toTlv g) : f = g := toTlv_injective h
@@ -76,14 +110,15 @@ theorem C08_means_what_it_says (s : Bytes) (t : Tag) (h : Filter.parse s = some 
 
 /-- unbalanced parentheses (every `(` `)` octet counts: they never stand for themselves) -/
 theorem C08_rejects_unbalanced (s : Bytes) (h : balanced 0 s = false) : Filter.parse s = none :=
-  Filter.reject_of_inv (fun _ _ hg => Filter.balanced_GLib hg) s h
+  Filter.parse_none_of_core (Filter.reject_of_inv (fun _ _ hg => Filter.balanced_GLib hg) s h)
 
 /-- trailing text after a complete parenthesised filter -/
 theorem C08_rejects_trailing_text (f : Filter) (s₁ s₂ : Bytes) (h : G .lib f s₁) (h2 : s₂ ≠ []) :
     Filter.parse (s₁ ++ s₂) = none := by
   obtain ⟨t, ht, _⟩ := Filter.filter_complete f s₁ h ((s₁ ++ s₂).length + 1) s₂ (by omega)
   have : Filter.filtexpr (s₁ ++ s₂) = .ok t s₂ := Filter.alt_left ht
-  unfold Filter.parse Filter.parseO
+  apply Filter.parse_none_of_core
+  unfold Filter.parseCore Filter.parseCoreO
   rw [this]
   cases s₂ with
   | nil => exact absurd rfl h2
@@ -91,7 +126,7 @@ theorem C08_rejects_trailing_text (f : Filter) (s₁ s₂ : Bytes) (h : G .lib f
 
 /-- a malformed escape: a backslash not followed by two hex digits -/
 theorem C08_rejects_bad_escape (s : Bytes) (h : escapesOk s = false) : Filter.parse s = none :=
-  Filter.reject_of_inv (fun _ _ hg => Filter.escapesOk_GLib hg) s h
+  Filter.parse_none_of_core (Filter.reject_of_inv (fun _ _ hg => Filter.escapesOk_GLib hg) s h)
 
 /-- an unescaped special character: NUL anywhere, or a `(` that is neither the first octet nor
 preceded by one of `(` `&` `|` `!` `)` (i.e. inside a value or an attribute description).  An
@@ -105,7 +140,7 @@ theorem C08_rejects_raw_special (s : Bytes) (h : (0 : UInt8) ∈ s ∨ parenPrev
     | some t =>
       obtain ⟨f, hg, _⟩ := C08_sound s t hp
       exact absurd h (Filter.noNul_GLib hg)
-  · exact Filter.reject_of_inv (fun _ _ hg => Filter.prev_GLib hg) s h
+  · exact Filter.parse_none_of_core (Filter.reject_of_inv (fun _ _ hg => Filter.prev_GLib hg) s h)
 
 /-- an unescaped `*` in the value of `>=`, `<=`, `~=` or an extensible match (anywhere after the
 operator's first octet), with or without the outer parentheses; in an `=` item an asterisk is the
@@ -113,7 +148,9 @@ substring separator -/
 theorem C08_rejects_raw_asterisk (a x : Bytes) (c : UInt8) (ha : IsAttrDesc .lib a)
     (hc : c = 0x3E ∨ c = 0x3C ∨ c = 0x7E ∨ c = 0x3A) (hx : (0x2A : UInt8) ∈ x) :
     Filter.parse (a ++ c :: x) = none ∧ Filter.parse (0x28 :: ((a ++ c :: x) ++ [0x29])) = none := by
-  refine Filter.reject_star_in_op_value ha hc ?_
+  suffices hs : Filter.starFree x = false by
+    obtain ⟨h1, h2⟩ := Filter.reject_star_in_op_value ha hc hs
+    exact ⟨Filter.parse_none_of_core h1, Filter.parse_none_of_core h2⟩
   cases h : Filter.starFree x with
   | false => rfl
   | true =>
@@ -127,7 +164,7 @@ theorem C08_rejects_empty_attr (s : Bytes)
       ∃ c x, s = c :: x ∧ c ≠ 0x28 ∧ c ≠ 0x3A ∧ ALPHA c = false ∧ DIGIT c = false) :
     Filter.parse s = none := by
   rcases h with h | ⟨c, x, rfl, h1, h2, h3, h4⟩
-  · exact Filter.reject_of_inv (fun _ _ hg => Filter.follow_GLib hg) s h
+  · exact Filter.parse_none_of_core (Filter.reject_of_inv (fun _ _ hg => Filter.follow_GLib hg) s h)
   · cases hp : Filter.parse (c :: x) with
     | none => rfl
     | some t =>
@@ -146,7 +183,7 @@ theorem C08_rejects_empty_attr (s : Bytes)
 /-- adjacent asterisks -/
 theorem C08_rejects_adjacent_asterisks (s : Bytes) (h : noAdjacentStars false s = false) :
     Filter.parse s = none :=
-  Filter.reject_of_inv (fun _ _ hg => Filter.noAdjacentStars_GLib hg) s h
+  Filter.parse_none_of_core (Filter.reject_of_inv (fun _ _ hg => Filter.noAdjacentStars_GLib hg) s h)
 
 /-! ### shape of the output, for every accepted string (what C02 and C19 assume about the filter element) -/
 
@@ -166,8 +203,8 @@ theorem C08_output_shape (s : Bytes) (t : Tag) (h : Filter.parse s = some t) :
     (s.head? = some 0x28 → t.toTlv.depth ≤ Filter.nest 0 s + 1) ∧
     (s.length < 288230376151711744 →
       Spec.WF t.toTlv ∧ (encode t.toTlv).length ≤ 32 * s.length + 51) := by
-  obtain ⟨h1, h2, h3, h4, h5, _⟩ := Filter.parse_shape h
-  exact ⟨h1, h2, h3, h4, h5, fun hl => Filter.parse_wf h hl⟩
+  obtain ⟨h1, h2, h3, h4, h5, _⟩ := Filter.parse_shape (Filter.parse_core h)
+  exact ⟨h1, h2, h3, h4, h5, fun hl => Filter.parse_wf (Filter.parse_core h) hl⟩
 
 /-- The matched-values parser (`parse_matched_values`) yields a universal SEQUENCE of at least one
 RFC 3876 `SimpleFilterItem` (context class, tag 3..9), at most three levels deep, with low tags
@@ -179,15 +216,20 @@ theorem C08_mv_output_shape (s : Bytes) (t : Tag) (h : Filter.parseMatchedValues
   obtain ⟨ks, h1, h2, h3, h4, h5, _⟩ := Filter.parseMv_shape h
   exact ⟨ks, h1, h2, h3, h4, h5, fun hl => Filter.parseMv_wf h hl⟩
 
-/-- The filter parser has no depth limit: `(a=b)` under `n` negations `(!(!…))` is accepted for every
-`n`, and its tree is `n + 1` constructed levels deep. -/
-theorem C08_any_depth_accepted (n : Nat) :
-    ∃ t, Filter.parse (Filter.notStr n [0x28, 0x61, 0x3D, 0x62, 0x29]) = some t ∧ t.toTlv.depth = n + 1 := by
+/-- The depth limit of the filter parser is 128 levels of parentheses: `(a=b)` under `n` negations
+`(!(!…))` is accepted exactly for `n ≤ 127`, its tree being `n + 1` constructed levels deep; from 128
+negations on the answer is `Err(())`, for every `n` — the grammar itself (`parseCore`) would accept every
+one of them, which is how the unrepaired parser came to exhaust its stack (F28). -/
+theorem C08_depth_limit (n : Nat) :
+    (n + 1 ≤ Filter.maxNesting →
+      ∃ t, Filter.parse (Filter.notStr n [0x28, 0x61, 0x3D, 0x62, 0x29]) = some t ∧ t.toTlv.depth = n + 1) ∧
+    (Filter.maxNesting < n + 1 → Filter.parse (Filter.notStr n [0x28, 0x61, 0x3D, 0x62, 0x29]) = none) ∧
+    (∃ t, Filter.parseCore (Filter.notStr n [0x28, 0x61, 0x3D, 0x62, 0x29]) = some t ∧ t.toTlv.depth = n + 1) := by
   obtain ⟨t, h, _, hd⟩ := Filter.parse_notN n
-  exact ⟨t, h, hd⟩
+  exact ⟨(Filter.parse_notStr n).1, (Filter.parse_notStr n).2, t, h, hd⟩
 
 /-- … whereas lber's parser stops at `maxDepth` = 64 levels.  A filter whose string nests deeper than 65
-is therefore WRITTEN — the tree has a BER encoding (`Spec.Enc`) and `encode` produces it — but cannot be
+(and at most 128) is therefore WRITTEN — the tree has a BER encoding (`Spec.Enc`) and `encode` produces it — but cannot be
 READ BACK by the library's own parser: the answer is `error`, whatever follows.  (Inside a SearchRequest the
 filter sits two levels down, so the limit for a search filter is 62 levels: `Spec.FilterOk`,
 `C02_parsed_filter_ok`, `C02_deep_filter_not_read_back`.) -/
@@ -195,7 +237,7 @@ theorem C08_deep_written_not_read_back (s : Bytes) (t : Tag) (h : Filter.parse s
     (hn : maxDepth + 1 < Filter.nest 0 s) (hl : s.length < 288230376151711744) (rest : Bytes)
     (hr : (encode t.toTlv ++ rest).length < 18446744073709551616) :
     Spec.Enc t.toTlv (encode t.toTlv) ∧ parseTag (encode t.toTlv ++ rest) = .error :=
-  Filter.deep_not_read_back h hn hl rest hr
+  Filter.deep_not_read_back (Filter.parse_core h) hn hl rest hr
 
 /-! ### non-vacuity (tests, labelled as such) -/
 
@@ -286,6 +328,15 @@ nests 67 deep, is accepted, and its 67-level tree has an encoding the parser ref
 example : maxDepth + 1 < Filter.nest 0 (Filter.notStr 66 [0x28, 0x61, 0x3D, 0x62, 0x29]) ∧
     (Filter.notStr 66 [0x28, 0x61, 0x3D, 0x62, 0x29]).length < 288230376151711744 := by
   rw [Filter.nest_notStr, Filter.length_notStr]; decide
+
+/-- the limit is met from both sides: 127 negations around `(a=b)` (128 levels) are accepted, 128 are not;
+the loop of `nesting_within_limit` run on `((((a` … and on `)(`: a `)` at depth 0 stays at 0 -/
+example : (Filter.parse (Filter.notStr 127 [0x28, 0x61, 0x3D, 0x62, 0x29])).isSome = true ∧
+    Filter.parse (Filter.notStr 128 [0x28, 0x61, 0x3D, 0x62, 0x29]) = none := by
+  obtain ⟨t, h, _⟩ := (C08_depth_limit 127).1 (by decide)
+  exact ⟨by rw [h]; rfl, (C08_depth_limit 128).2.1 (by decide)⟩
+example : Filter.nestingGo 126 [0x28, 0x28, 0x61] = true ∧ Filter.nestingGo 126 [0x28, 0x28, 0x28, 0x61] = false ∧
+    Filter.nestingGo 0 [0x29, 0x28] = true ∧ Filter.nestingGo 128 [0x29, 0x28] = true := by decide
 
 /-! ### tie by regeneration (translate/pure_fns.py): the lexical classes and the `\\hh` state machine of
 the *current* src/filter.rs are the model's. -/
